@@ -193,13 +193,14 @@ def canon_key(k):
 class Ref:
     """Environment-based evaluation; `kludge` reproduces the known trailing-newline deviation (finding C04/#22)."""
 
-    def __init__(self, lib, kludge=False, depth_limit=40, trim_first=None):
+    def __init__(self, lib, kludge=False, depth_limit=40, trim_first=None, switch_default_wins=False):
         self.lib = {}
         for name, body, pre in lib:
             self.lib[name] = body
         self.kludge = kludge                      # one trailing newline of substituted values / nested-call args dropped
         self.trim_first = kludge if trim_first is None else trim_first   # named values trimmed before expansion
         self.depth_limit = depth_limit
+        self.switch_default_wins = switch_default_wins
         self.unsupported = False
 
     def lookup(self, name):
@@ -354,7 +355,7 @@ class Ref:
             if default_found or k.lower() == "#default":
                 default = sp[1]
                 default_found = False
-        if last is not None:
+        if last is not None and not (self.switch_default_wins and default is not None):
             return last
         if default is not None:
             return self.argtext(default, env, depth, in_body).strip()
